@@ -171,6 +171,30 @@ def rule_orphan_moved(ctx, crate, rule="R-ORPHAN-MOVED"):
             ok = fe.bb not in d.reach_after(fo.bb) and fo.bb not in d.reach_after(fm.bb) and fe.bb not in d.reach_after(fm.bb) \
                 and fo.bb in d.reach_after(fe.bb) | {fe.bb} or False
             ok = ok and d.must_pass([0], [fo.bb], to=[fm.bb])
+        # lines queued for a target that cannot show them are dropped, not kept for later: every return of draw() - other than
+        # the panicking() one and the refusal of the (forced) drawable - has emptied the queue. Text queued while the
+        # MultiProgress was hidden would otherwise surface below newer lines once a visible target is installed.
+        consumers = {c.bb for c, k in uses_of_field_ref(d, "orphan_lines") if c.matches(*MOVING) or c.matches(r"std::vec::Vec::<T, A>::(clear|truncate)")}
+        exempt = set()
+        for sb, t in d.switches():
+            sl = d.slice(t["op"], at=sb)
+            if sl.has_call(r"std::thread::panicking"):
+                exempt.add((sb, t["otherwise"]))
+        for sb, t, pl, dd in K.discr_switches(d):
+            if K.head_of_type(pl.get("ty", "")) == "std::option::Option" and d.slice({"k": "copy", "place": {"l": pl["l"], "p": []}}, through_calls=False).has_call(K.PDT_DRAWABLE):
+                for tgt, vs in K.edge_variants(crate, t, "std::option::Option").items():
+                    if vs == {"None"}:
+                        exempt.add((sb, tgt))
+        err = set()
+        for k_ in d.calls(K.TRY_BRANCH):
+            te = K.try_edges(d, k_)
+            if te:
+                err.add((te[0], te[2]))
+        leak = d.reach([0], avoid=consumers, avoid_edges=exempt | err) & set(d.return_blocks())
+        ctx.check(not leak, rule, "hidden-target-drops-orphans", d.name, K.fn_loc(d),
+                  "every return of MultiState::draw (panicking / refused drawable excepted) has emptied the orphan queue",
+                  "MultiState::draw can return with the orphan lines still queued (the early return for a target without a width, i.e. a hidden MultiProgress): "
+                  "text printed through a member while hidden is painted later, below newer lines, once a visible target is installed", cfg)
         ctx.check(ok, rule, "frame-feed-order", d.name, K.fn_loc(d),
                   "the frame is fed in the order println text, orphan lines, member bars (%s)" % kinds,
                   "frame composition order is not text -> orphan lines -> bars (found feeds %s)" % kinds, cfg)
